@@ -5,7 +5,7 @@ import numpy as np
 
 
 def mesh(nx, ny, symmetry=True, side="left", span=4.0, chord=1.0, sweep=0.3, dihedral=0.1, taper=0.6, camber=0.0,
-         yshift=0.0, xshift=0.0):
+         yshift=0.0, xshift=0.0, flip=False):
     """nx x ny x 3 mesh. symmetry=True: a half wing (left: y from -span/2 to 0, right: 0 to span/2);
     symmetry=False: full wing, ny nodes from -span/2 to span/2"""
     if symmetry:
@@ -25,6 +25,8 @@ def mesh(nx, ny, symmetry=True, side="left", span=4.0, chord=1.0, sweep=0.3, dih
             m[i, j, 0] = xle + c * xi + xshift
             m[i, j, 1] = y[j] + yshift
             m[i, j, 2] = dihedral * abs(y[j]) + camber * xi * (1 - xi)
+    if flip:
+        m = m[:, ::-1, :].copy()               # the other spanwise node order (left half root first / right half tip first)
     return m
 
 
@@ -37,8 +39,8 @@ _LY = np.array([-0.0447, -0.0527, -0.0581, -0.0611, -0.0617, -0.0594, -0.0541, -
 def surface(name="wing", nx=2, ny=3, symmetry=True, side="left", model="tube", groundplane=False,
             S_ref_type="wetted", with_viscous=True, with_wave=True, struct_weight_relief=False,
             distributed_fuel_weight=False, n_point_masses=0, ref_axis_pos=None, fem_origin=0.35, yshift=0.0,
-            xshift=0.0, camber=0.0, extra=None):
-    m = mesh(nx, ny, symmetry, side, yshift=yshift, xshift=xshift, camber=camber)
+            xshift=0.0, camber=0.0, extra=None, flip=False):
+    m = mesh(nx, ny, symmetry, side, yshift=yshift, xshift=xshift, camber=camber, flip=flip)
     d = {
         "name": name,
         "symmetry": symmetry,
